@@ -683,3 +683,35 @@ def exec_cli(w, repo):
         rc, out, calls = go(["-exec", rec, "{}", "+", "-quit"])
         res.append(("-exec + then -quit still runs the pending invocation: %r" % calls, len(calls) == 1 and calls[0].endswith("<r>")))
     return _battery(res)
+
+
+def reader_bytes(w, repo):
+    """exact: pipe the witness bytes into the real xargs (default mode or -d) and compare argv with the reference"""
+    if not build(repo):
+        return None, "build failed"
+    data = bytes(w.get("input") or [])
+    kind, delim = w.get("kind"), w.get("delimiter")
+    if not data:
+        return None, "no input bytes"
+    with Sandbox() as d:
+        out_path = os.path.join(d, "argv.bin")
+        script = os.path.join(d, "dump.sh")
+        open(script, "w").write('#!/bin/sh\nfor a in "$@"; do printf "%s\\0" "$a" >> "' + out_path + '"; done\n')
+        os.chmod(script, 0o755)
+        if kind == "bytes":
+            if delim is None or delim >= 0x80 or delim in (0x5C,):
+                return None, "delimiter %r cannot be given as a single-byte -d operand" % (delim,)
+            dstr = {0x0A: "\\n", 0x09: "\\t", 0x0B: "\\v"}.get(delim, chr(delim))
+            rc, out, e = run([xargs_bin(repo), "-d", dstr, script], cwd=d, inp=data)
+            toks = [t for t in data.split(bytes([delim])) if t]
+            err = False
+        else:
+            rc, out, e = run([xargs_bin(repo), script], cwd=d, inp=data)
+            toks, err, amb = _ref_tokens(data)
+            if amb:
+                return None, "'' as a whole token: outside the claim"
+        got = open(out_path, "rb").read().split(b"\0")[:-1] if os.path.exists(out_path) else []
+        want = [t.decode("utf-8", errors="replace").encode() for t in toks]
+        ok = (rc == 1) if err else (got == want and rc == 0)
+        detail = "input %r%s: xargs delivered %r (rc=%d), reference %r%s" % (data, (" -d %#x" % delim) if kind == "bytes" else "", got, rc, want, " + error" if err else "")
+        return (not ok), detail
